@@ -319,8 +319,9 @@ theorem objPullRaw_err_keeps_state (P : Model.SecretStream.Prims) (s : Model.Sec
   exact Proofs.SecretStream.objPull_err_state P s ct ad h
 
 /-- **the classic stream `pull`, statement by statement (`pullRaw`): on `Err` the state, the message buffer and
-the tag variable are unchanged** — every ciphertext length, the ≈ 256 GiB window of `C04.pullRaw_panics_near_max`
-included (there the outcome is `Err` or a panic, never a release).  Honest caveat: `pullRawWith` reports the
+the tag variable are unchanged** — every ciphertext length (since fix E16 the outcome is never a panic:
+`C04.pullRaw_never_panics`; the ≈ 256 GiB window in which the code before the fix panicked, `C04.pullRaw_panics_near_max`,
+is an `Err` now).  Honest caveat: `pullRawWith` reports the
 caller's buffers on every `.err` of the body BY CONSTRUCTION (the model is written in source order and each
 `return Err` of the Rust precedes the first write), so what this theorem adds over that is only that no `Ok`
 body carries an `Err` verdict; a reordering of the tag write in the Rust is caught by the differential run. -/
@@ -333,20 +334,31 @@ theorem pullRaw_failed_no_release (P : Model.SecretStream.Prims) (s : Model.Secr
   Proofs.SecretStream.pullRaw_err_untouched P s m tagv ct ad h
 
 /-- `DryocStream<Pull>::pull` statement by statement (`objPullCode`, which now threads the state the classic
-function left through the `?`, on every branch) is `objPullRaw`, for every ciphertext up to the crate's
-key-stream limit `64·(2^32 − 3) + 17` -/
+function left through the `?`, on every branch) is `objPullRaw`, for every ciphertext the length guard lets through
+(`64·(2^32 − 3) + 17` bytes; the hypothesis is there only because `objPullRaw` is built on the guard-free `pull` —
+beyond the bound `objPullCode` is an `Err` with the state untouched, `C04.objPullCode_too_long`; against the guarded
+total model no hypothesis is needed: `objPullCode_eq_objPullChecked`) -/
 theorem objPullCode_eq_objPullRaw (P : Model.SecretStream.Prims) (s : Model.SecretStream.State) (ct ad : Bytes)
     (h : ct.length ≤ Model.SecretStream.STREAM_BODY_MAX + 17) :
     Model.SecretStream.objPullCode P s ct ad = Model.SecretStream.objPullRaw P s ct ad :=
   Proofs.SecretStream.objPullCode_eq_objPullRaw P s ct ad h
 
-/-- a rejected `DryocStream::pull`, statement by statement, leaves the stream state as it was -/
+/-- … and the guarded total model `objPullChecked` (the length guard of fix E16 in the model) for EVERY ciphertext -/
+theorem objPullCode_eq_objPullChecked (P : Model.SecretStream.Prims) (s : Model.SecretStream.State) (ct ad : Bytes) :
+    Model.SecretStream.objPullCode P s ct ad = Model.SecretStream.objPullChecked P s ct ad :=
+  Proofs.SecretStream.objPullCode_eq_objPullChecked P s ct ad
+
+/-- a rejected `DryocStream::pull`, statement by statement, leaves the stream state as it was — every ciphertext
+length (no hypothesis since fix E16) -/
 theorem objPullCode_err_keeps_state (P : Model.SecretStream.Prims) (s : Model.SecretStream.State) (ct ad : Bytes)
-    (hlen : ct.length ≤ Model.SecretStream.STREAM_BODY_MAX + 17)
     (h : (Model.SecretStream.objPullCode P s ct ad).1 = .err) :
-    (Model.SecretStream.objPullCode P s ct ad).2 = s := by
-  rw [objPullCode_eq_objPullRaw P s ct ad hlen] at h ⊢
-  exact objPullRaw_err_keeps_state P s ct ad h
+    (Model.SecretStream.objPullCode P s ct ad).2 = s :=
+  Proofs.SecretStream.objPullCode_err_state P s ct ad h
+
+/-- `DryocStream::pull`, statement by statement, never panics: anything but `Ok` is `Err` — every ciphertext length -/
+theorem objPullCode_never_panics (P : Model.SecretStream.Prims) (s : Model.SecretStream.State) (ct ad : Bytes) :
+    (Model.SecretStream.objPullCode P s ct ad).1 ≠ .panic :=
+  Proofs.SecretStream.objPullCode_never_panics P s ct ad
 
 /-- the same for `objPull` (there it holds by the shape of the definition; `objPullRaw_eq_objPull` is what
 ties that shape to the code) -/
@@ -555,7 +567,15 @@ example : (Model.SecretStream.pullRaw C03.toyP C03.toyS [9, 9, 9] 7 ([1, 2] ++ z
   (pullRaw_failed_no_release C03.toyP C03.toyS _ _ _ _ (by decide)).2.1
 
 example : (Model.SecretStream.objPullCode C03.toyP C03.toyS ([1, 2] ++ zeros 16) [0x42]).2 = C03.toyS :=
-  objPullCode_err_keeps_state C03.toyP C03.toyS _ _ (by decide) (by decide)
+  objPullCode_err_keeps_state C03.toyP C03.toyS _ _ (by decide)
+
+/-- … and a ciphertext above the limit (lengths only): the hypothesis of `objPullCode_err_keeps_state` holds there
+too — `Err`, state kept -/
+example : ∃ ct : Bytes, (Model.SecretStream.objPullCode C03.toyP C03.toyS ct []).1 = .err ∧
+    (Model.SecretStream.objPullCode C03.toyP C03.toyS ct []).2 = C03.toyS := by
+  refine ⟨List.replicate (Model.SecretStream.STREAM_BODY_MAX + 18) 0, ?_⟩
+  rw [Proofs.SecretStream.objPullCode_too_long C03.toyP C03.toyS _ [] (by rw [List.length_replicate]; omega)]
+  exact ⟨rfl, rfl⟩
 
 /-- `objUnseal_err_of_mac_ne`: a sealed box with a forged tag -/
 example : objUnseal toyPrims ⟨some toyEsk, zeros 16, [1, 1, 1]⟩ toyRpk toyRsk = .err :=
